@@ -583,7 +583,7 @@ func runIterPlan(rc *RunCtx, p iterPlan, hasMerge []bool) (SimResult, *iterOutpu
 			case midCompleteFile:
 				it = it.CompleteFileIterator()
 			case midLimitMemory:
-				if st.A == 5 && st.B >= 4 && len(p.Streams[0].Sizes) <= 3 {
+				if st.A == 5 && st.B >= 4 && pressureAffordable(p) {
 					// memory stays above the limit for as long as the stage is prepared to wait:
 					// the batch must then go on all the same
 					it = it.LimitMemory(1e-12)
@@ -692,6 +692,29 @@ func runIterPlan(rc *RunCtx, p iterPlan, hasMerge []bool) (SimResult, *iterOutpu
 		obiiter.WaitForLastPipe()
 	})
 	return res, out
+}
+
+// pressureAffordable: under memory pressure LimitMemory spends 10 000 scheduling steps on every
+// batch before letting it through; the plan must be small enough for the run to end within its
+// step budget (at most 6 records, so at most 6 batches whatever the re-batching, and no
+// fragmenting stage, which multiplies the records).
+func pressureAffordable(p iterPlan) bool {
+	n := 0
+	for _, s := range p.Streams {
+		n += len(s.Recs)
+	}
+	for _, m := range p.Mids {
+		if m.Kind == midFragments {
+			return false
+		}
+	}
+	pressured := 0
+	for _, m := range p.Mids {
+		if m.Kind == midLimitMemory && m.A == 5 && m.B >= 4 {
+			pressured++
+		}
+	}
+	return n <= 6 && pressured <= 1
 }
 
 func runC03(rc *RunCtx) {
